@@ -12,6 +12,7 @@ def run(facts, tier):
         ("compatibility", B.compat, 3, "set operations are dominated by the compatibility check"),
         ("bit operations", B.bitops, 3, "union/intersect/invert combine every byte and count the result byte on every iteration"),
         ("overload siblings", B.overload_siblings, 20, "update(T), query(T), query_and_update(T) canonicalise and hash identically"),
+        ("tautologies", lambda fa: generic_lints.tautologies(fa, ('filters/',)), 2, "no comparison / assignment / min-max with two identical operands, no if-else with identical arms"),
         ("duplicate operands", lambda fa: generic_lints.duplicate_conjuncts(fa, ('filters/',)), 2, "no logical chain tests the same operand twice (copy-paste of the wrong peer)"),
     ):
         o = f(facts)
